@@ -34,9 +34,10 @@ def classify(monitor, item, spec, res):
         mct = cfg.get("max_concurrent_tries")
         if mct is not None and int(mct) > max(mt, 1) and monitor == "count":
             return "count:mct>max_tries"
-        if monitor == "count" and cdef is not None and cdef.get("root_of") and mt > 1:
+        is_root = (cdef is not None and cdef.get("root_of")) or "o" in res.get("class_flags", {}).get(str(cls), "")
+        if monitor == "count" and is_root and mt > 1:
             return "count:object-root-creation-hidden-from-retry-budget"
-        if cdef is not None and cdef.get("root_of"):
+        if is_root:
             feats.append("object-root")
         if cdef is not None and cdef.get("set"):
             feats.append("stateful")
